@@ -990,16 +990,17 @@ func callBuiltin(caller *frame, callpos token.Pos, fn *ssa.Builtin, args []value
 		if len(args) == 1 {
 			return args[0]
 		}
+		elemT := fn.Type().(*types.Signature).Params().At(0).Type().Underlying().(*types.Slice).Elem()
 		if s, ok := args[1].(string); ok {
 			// append([]byte, ...string) []byte
-			arg0 := args[0].([]value)
+			bs := make([]value, len(s))
 			for i := 0; i < len(s); i++ {
-				arg0 = append(arg0, s[i])
+				bs[i] = s[i]
 			}
-			return arg0
+			return goAppend(args[0].([]value), bs, elemT)
 		}
 		if s, ok := args[1].(symStr); ok {
-			return append(args[0].([]value), []value(s)...)
+			return goAppend(args[0].([]value), []value(s), elemT)
 		}
 		// append([]T, ...[]T) []T
 		// (aggregate elements are values: copy them, never alias the source backing array)
@@ -1011,7 +1012,7 @@ func callBuiltin(caller *frame, callpos token.Pos, fn *ssa.Builtin, args []value
 			}
 			src = cp
 		}
-		return append(args[0].([]value), src...)
+		return goAppend(args[0].([]value), src, elemT)
 
 	case "copy": // copy([]T, []T) int or copy([]byte, string) int
 		src := args[1]
